@@ -250,17 +250,17 @@ func init() {
 				}
 				judgeCreateAny(c, v5Create, a, b)
 			}},
-			{Name: "edited-objects", Count: n(60000, 1500000), Run: func(c *core.Ctx, idx int) {
+			{Name: "edited-objects", Count: n(60000, 4500000), Run: func(c *core.Ctx, idx int) {
 				aT := prof.Object(c.R, 1+c.R.Intn(4))
 				a := mustParse(aT)
 				b := editObject(c.R, prof, a, c.R.Intn(4))
 				bT := prof.Respell(c.R, b, c.R.Intn(2) == 0)
 				judgeCreateObj(c, v5Create, aT, bT)
 			}},
-			{Name: "independent-objects", Count: n(20000, 500000), Run: func(c *core.Ctx, idx int) {
+			{Name: "independent-objects", Count: n(20000, 1500000), Run: func(c *core.Ctx, idx int) {
 				judgeCreateObj(c, v5Create, prof.Object(c.R, 3), prof.Object(c.R, 3))
 			}},
-			{Name: "arrays-and-root-kinds", Count: n(20000, 400000), Run: func(c *core.Ctx, idx int) {
+			{Name: "arrays-and-root-kinds", Count: n(20000, 1200000), Run: func(c *core.Ctx, idx int) {
 				mk := func() (string, []string) {
 					k := c.R.Intn(4)
 					var el []string
